@@ -506,3 +506,9 @@ def run(ctx):
     # knows the memo cell and the per-type rule)
     from . import c08 as _c08
     ctx.include(_c08, {"R8.7"}, "R3.11", "code generation must terminate for every valid definition")
+    # ---------------- R3.12 the double predicates agree: `has_double` selects the Educe derive for a type, `is_double` puts the
+    # DoubleOps method attributes on its fields.  A position that the first sees and the second does not leaves a bare f64
+    # under derive(Eq, Ord, Hash) — output that does not compile.  The tables are decided by the C02 module (R2.1).
+    from . import c02 as _c02
+    ctx.include(_c02, {"R2.1"}, "R3.12", "a double position that is_double / has_double disagree on leaves a bare f64 under derive(Eq, Ord, Hash): the output does not compile",
+                select=lambda k: "is_double" in k or "has_double" in k)
